@@ -292,12 +292,16 @@ class Histories(BFSFamily):
         internal = getattr(p, '_BaseProxy__id_count', None)
 
         def simple(v, d=0):
-            if isinstance(v, (int, str, bytes, bool, float)) or v is None:
+            # counters only: integers, also inside containers; everything else by type (a proxy that remembers its last
+            # method name or reply must not multiply the states)
+            if isinstance(v, bool) or v is None:
+                return v
+            if isinstance(v, int):
                 return v
             if d < 3 and isinstance(v, (list, tuple)):
-                return tuple(simple(x, d + 1) for x in v)
+                return tuple(simple(x, d + 1) for x in v if isinstance(x, (int, list, tuple, dict)))
             if d < 3 and isinstance(v, dict):
-                return tuple(sorted((str(k), repr(simple(x, d + 1))) for k, x in v.items()))
+                return tuple(sorted((str(k), repr(simple(x, d + 1))) for k, x in v.items() if isinstance(x, (int, list, tuple, dict))))
             return type(v).__name__
         # everything the proxy object itself holds (whatever its attributes are called), so that two histories are merged
         # only when the object really is in the same state
